@@ -169,6 +169,21 @@ def _norm(dest, v):
     return v
 
 
+_PRISTINE = {}
+
+
+def _fresh_class_state():
+    """Every path starts from the class-level state of a fresh interpreter (a no-op unless some code mutates
+    Configuration.defaults in place - which the history check below is there to detect)."""
+    import copy
+    from behave.configuration import Configuration
+    if "defaults" not in _PRISTINE:
+        _PRISTINE["defaults"] = copy.deepcopy(Configuration.defaults)
+    elif Configuration.defaults != _PRISTINE["defaults"]:
+        Configuration.defaults.clear()
+        Configuration.defaults.update(copy.deepcopy(_PRISTINE["defaults"]))
+
+
 def _build(tmp, home, file_lines, args, toml=False, in_home=False):
     from behave.configuration import Configuration
     base = home if in_home else tmp
@@ -247,6 +262,7 @@ def h_precedence(sx):
             lines += l
             args += a
             exps[o["dest"]] = e
+        _fresh_class_state()
         base = _snapshot(_build(tmp, home, None, []), dests)
         try:
             cfg = _build(tmp, home, lines if lines else None, args, toml=toml)
@@ -263,6 +279,13 @@ def h_precedence(sx):
         for d in dests:
             if d not in touched:
                 sx.check(got[d] == base[d], "C20.untouched-options-keep-defaults", detail=dict(det, dest=d, got=repr(got[d]), default=repr(base[d])))
+        # history: a configuration built AFTER this one, with nothing mentioned anywhere, has the built-in defaults again
+        later = _build(tmp, home, None, [])
+        after = _snapshot(later, dests)
+        for d in dests:
+            sx.check(after[d] == base[d], "C20.defaults-unaffected-by-earlier-configuration",
+                     detail=dict(det, dest=d, later=repr(after[d]), default=repr(base[d])))
+        sx.check(dict(later.userdata) == {}, "C20.userdata-unaffected-by-earlier-configuration", detail=dict(det, userdata=repr(dict(later.userdata))))
         return {"file": lines, "args": args, "values": {d: repr(got[d]) for d in sorted(touched)}}
     finally:
         shutil.rmtree(tmp, ignore_errors=True)
@@ -296,6 +319,7 @@ def h_lists_paths_userdata(sx):
             args += ["--junit"]
         if nocapture:
             args += ["--no-capture", "--no-capture-stderr", "--no-logcapture"]
+        _fresh_class_state()
         cfg = _build(tmp, home, lines, args, toml=bool(toml), in_home=bool(in_home))
         base = os.path.realpath(home if in_home else tmp)
         det = {"in_home": bool(in_home), "toml": bool(toml), "args": args}
@@ -319,6 +343,11 @@ def h_lists_paths_userdata(sx):
             sx.check(cfg.stdout_capture and cfg.stderr_capture and cfg.log_capture, "C20.junit-forces-capture", detail=det)
         elif nocapture:
             sx.check(not (cfg.stdout_capture or cfg.stderr_capture or cfg.log_capture), "C20.cmdline>file>default", detail=det)
+        # history: the next configuration (another project, no config file, no arguments) sees none of it
+        later = _build(tmp, home, None, [])
+        sx.check(dict(later.userdata) == {} and not later.config_tags and not later.name and list(later.format or []) == [],
+                 "C20.userdata-unaffected-by-earlier-configuration",
+                 detail=dict(det, userdata=repr(dict(later.userdata)), tags=repr(later.config_tags), name=repr(later.name), format=repr(later.format)))
         return {"paths": [os.path.relpath(x, base) for x in cfg.paths], "userdata": dict(cfg.userdata)}
     finally:
         shutil.rmtree(tmp, ignore_errors=True)
